@@ -34,6 +34,48 @@ def rules(ctx):
     c155(ctx)
     c156(ctx)
     c157(ctx)
+    c158(ctx)
+
+
+def c158(ctx):
+    R = "C15.8"
+    ctx.declare(R, "the varint decoders shift by an amount that grows with the number of bytes consumed; the number of such steps is bounded by a "
+                   "constant (at most ten groups of seven bits fit a u64), whatever the length of the input")
+    n = 0
+    for f in sorted(ctx.prog.fns.values(), key=lambda f: f.key):
+        if f.crate != "buffertk" or "varint" not in f.skey or "{closure" in f.skey:
+            continue
+        for b in f.blocks:
+            for i, st in enumerate(b.st):
+                if not (st["s"] == "=" and st["rv"]["r"] == "bin" and st["rv"]["op"] in ("Shl", "ShlUnchecked") and st["rv"]["b"].get("k") != "const"):
+                    continue
+                pt = (b.idx, i)
+                srcs, _ = P.value_slice(f, st["rv"]["b"])
+                # where the amount grows: additions / multiplications inside a loop, or the counter of an enumerate()
+                grow = []
+                for x in srcs:
+                    if x["k"] == "bin" and x["op"].startswith(("Add", "Mul")) and "pt" in x and P.reach(f, P.after(f, x["pt"]), [x["pt"]]) is not None:
+                        grow.append(x["pt"])
+                    if x["k"] == "call" and re.search(r"Iterator>?::next$", x["callee"]) and P.reach(f, P.after(f, x["pt"]), [x["pt"]]) is not None:
+                        grow.append(x["pt"])
+                if not grow:
+                    continue        # not loop-carried (a constant expression such as 7 * (SZ - 1))
+                n += 1
+                bounded = None
+                for g_ in grow + [pt]:
+                    for c in K.compare_guards(f, g_):
+                        for side, lim in ((c["b"], {"Lt": 10, "Le": 9}), (c["a"], {"Gt": 10, "Ge": 9})):
+                            if c["op"] in lim and c["holds"]:
+                                cs = [x.get("v") for x in P.value_slice(f, side)[0] if x["k"] == "const" and isinstance(x.get("v"), int) and x.get("v") > 0]
+                                if cs and max(cs) <= lim[c["op"]]:
+                                    bounded = "comparison with a value that is at most %d" % max(cs)
+                    for h in [h for h in P.call_points(f, r"Iterator>?::next$") if P.reach(f, P.after(f, h), [g_]) is not None and P.reach(f, P.after(f, g_), [h]) is not None]:
+                        if re.search(r"\bTake<", K.loop_iterator_type(f, h)):
+                            bounded = bounded or "take(n) on the byte iterator"
+                ctx.check(R, f, "shift-steps-bounded", bounded is not None, "the shift amount at line %d grows in a loop whose trip count is bounded (%s)" % (st["sp"][1], bounded),
+                          "%s shifts left by an amount that grows with every byte of the input, in a loop that nothing bounds by a constant: ten "
+                          "continuation bytes followed by more input shift by 70 -- a panic in a checked build, a wrapped shift and a garbage value otherwise" % f.skey, pt=pt)
+    ctx.floor(R, "loop-carried shift amounts in the varint decoders", n, 1)
 
 
 def pack_table(f):
